@@ -1694,6 +1694,12 @@ func c17writers(c *eng.Ctx, F *c17fields, fv *types.Var, table map[string]string
 		name := eng.FuncName(w.Fn)
 		shapes, ok := table[name]
 		got := c17shape(w.Store.Val, fv, F)
+		if !ok && w.Fn.Parent() != nil && got == "snapshot" {
+			// a rollback closure of a tabled writer that writes back a captured snapshot
+			if _, pok := table[eng.FuncName(w.Fn.Parent())]; pok {
+				shapes, ok = "snapshot", true
+			}
+		}
 		if !ok {
 			bad = true
 			c.Violation(w.Fn, site, w.Store.Pos(), "store of "+eng.Expr(w.Store.Val)+" to Policy."+fv.Name()+" outside the frozen writer table", nil)
